@@ -60,7 +60,7 @@ static int add_integer(yaml_document_t *document, int value)
  */
 static int add_double(yaml_document_t *document, double value, int precision)
 {
-    char buf[3 * sizeof(double) + 10];
+    char buf[MAX(precision, 1) + 3 * sizeof(double) + 10];
     int tag;
 
     assert(precision >= 1);
@@ -84,7 +84,7 @@ static int add_complex(yaml_document_t *document, double complex value,
 {
     double real = creal(value);
     double imag = cimag(value);
-    char buf[3 * sizeof(double complex) + 20];
+    char buf[2 * MAX(precision, 1) + 3 * sizeof(double complex) + 20];
     int tag;
 
     assert(precision >= 1);
